@@ -57,6 +57,18 @@ def check_chaining(ctx):
         if isinstance(n, ast.Assign) and isinstance(n.targets[0], ast.Tuple) and norm(n.value) == rules and len(n.targets[0].elts) == 2 and isinstance(n.targets[0].elts[1], ast.Starred):
             cur, rem = norm(n.targets[0].elts[0]), norm(n.targets[0].elts[1].value)
     if cur is None:
+        # the split exists but takes the rule from the wrong end: `*remaining, current = rules`, `rules[-1]` / `rules[:-1]`, rules.pop()
+        for n in body_walk(fi.node):
+            wrong = None
+            if isinstance(n, ast.Assign) and isinstance(n.targets[0], ast.Tuple) and norm(n.value) == rules and len(n.targets[0].elts) == 2 and isinstance(n.targets[0].elts[0], ast.Starred):
+                wrong = n
+            elif isinstance(n, ast.Subscript) and norm(n.value) == rules and norm(n.slice) in ("-1", ":-1"):
+                wrong = n
+            elif isinstance(n, ast.Call) and norm(n.func) == f"{rules}.pop" and not n.args:
+                wrong = n
+            if wrong is not None:
+                ctx.violation(R1, fi.key + ":split", f"`{short(wrong)}` takes the rule to apply from the end of the list: the rules are applied last-to-first, not in the order given", f"{fi.module.relpath}:{wrong.lineno}")
+                return
         ctx.undecided(R1, fi.key + ":split", f"cannot find `current, *remaining = {rules}`", fi)
         return
     # production only under predicate
@@ -181,6 +193,21 @@ def check_rules(ctx):
                 unwraps.append((n, _exp(n.value)))
             if isinstance(n, ast.Call) and dotted(n.func) == "getattr" and len(n.args) >= 2 and const_str(n.args[1]) == "wrapped_gate":
                 unwraps.append((n, None))
+        # ... also through a helper: a called repository function that itself walks `.wrapped_gate` without asking for a
+        # ControlledGate (e.g. one that strips every modifier) is an undiscriminating unwrap of its argument
+        for n in walk_local(pred.node):
+            if isinstance(n, ast.Call) and n.args:
+                try:
+                    targets, _ = repo.resolve_call(pred, n)
+                except Exception:
+                    targets = []
+                for t in targets[:2]:
+                    if t.cls is not None and t.cls.name in ("ControlledGate",):
+                        continue
+                    reads = [x for x in walk_local(t.node) if (isinstance(x, ast.Attribute) and x.attr == "wrapped_gate") or (isinstance(x, ast.Call) and dotted(x.func) in ("getattr", "hasattr") and len(x.args) >= 2 and const_str(x.args[1]) == "wrapped_gate")]
+                    asks = any(isinstance(x, ast.Call) and dotted(x.func) == "isinstance" and len(x.args) == 2 and "ControlledGate" in norm(x.args[1]) for x in walk_local(t.node))
+                    if reads and not asks:
+                        unwraps.append((n, None))
         guarded_bases = set()
         for n in walk_local(pred.node):
             if isinstance(n, ast.BoolOp) and isinstance(n.op, ast.And):
